@@ -326,12 +326,25 @@ def verdictRule (r : Rec) (rules : List RuleM) (impl : List ImplPC) (rule : Rule
           else { v with ok := false, known := "", why := s!"{rule.name}: dropped although no superior core touches it" }
         else v) stats
 
+/-- output-level reading of "dropped when the cluster of one of its SUPERIORS covers its core genes", on
+    lines and rings alike: no reported protocluster may have every base of its core inside the core of a
+    reported protocluster of one of the superiors its rule lists (cores read as sets of bases) -/
+def reportedUnderSuperior (rules : List RuleM) (pcs : List ImplPC) : Option (ImplPC × ImplPC) :=
+  pcs.findSome? fun low =>
+    match rules.find? (·.name == low.rule) with
+    | none => none
+    | some rule =>
+      (pcs.find? fun high => rule.superiors.contains high.rule && subsetIvs low.core.canon high.core.canon).map
+        fun high => (low, high)
+
 /-- the spec evaluated on the reported protoclusters (`none`: the implementation raised) -/
 def verdict (r : Rec) (rules : List RuleM) (impl : Option (List ImplPC)) : Verdict :=
   match impl with
   | none => { ok := false, why := "the implementation raised an exception" }
   | some pcs =>
     if !(pcs.all fun pc => rules.any (·.name == pc.rule)) then { ok := false, why := "protocluster of an unknown rule" }
+    else if let some (low, high) := reportedUnderSuperior rules pcs then
+      { ok := false, why := s!"a protocluster of {low.rule} is reported although the core of a protocluster of its superior {high.rule} covers its core" }
     else
       rules.foldl (fun (v : Verdict) rule =>
         let w := verdictRule r rules pcs rule
